@@ -4,6 +4,7 @@ mod alloc;
 mod c01;
 mod c02;
 mod c03;
+mod c04;
 mod c19;
 mod e1;
 mod e3;
@@ -31,6 +32,7 @@ fn main() {
         "c03-one" => c03::child_one(&args[2], true),
         "c03-sweep" => c03::child_sweep(&args[2], args[3].parse().unwrap(), &args[4]),
         "c03-e3" => c03::child_e3(&args[2], &args[3]),
+        "C04" => c04::run(tier, replay),
         "C19" => c19::run(tier, replay),
         other => {
             eprintln!("unknown property id {}", other);
